@@ -783,6 +783,29 @@ impl<'a> WireCtx<'a> {
                     self.check_one(d, &b, None, &info);
                 }
             }
+            // one byte INSERTED or DELETED anywhere (the length is off by one and everything behind the
+            // position moves): at every field boundary all 256 values, at every other offset a few
+            {
+                let mut bounds: Vec<usize> = vec![0];
+                let mut p = 0;
+                for (_, len) in &lay {
+                    p += len;
+                    bounds.push(p);
+                }
+                for o in 0..=valid.len() {
+                    let vals: Vec<u8> = if bounds.contains(&o) { (0..=255u8).collect() } else { vec![0x00, 0x01, 0x02, 0x80, 0xff] };
+                    for v in vals {
+                        let mut b = valid.clone();
+                        b.insert(o, v);
+                        self.check_one(d, &b, None, &info);
+                    }
+                    if o < valid.len() {
+                        let mut b = valid.clone();
+                        b.remove(o);
+                        self.check_one(d, &b, None, &info);
+                    }
+                }
+            }
             for _ in 0..per_decoder {
                 let mut b = valid.clone();
                 match rng.below(5) {
